@@ -12,7 +12,8 @@ class Spec(simcheck.SimSpec):
     shard_runs = 500
     families = [{'label': 'well-formed', 'family': 'well'},
                 {'label': 'well-formed-2', 'family': 'well'},
-                {'label': 'malformed-returns', 'family': 'malformed'}]
+                {'label': 'malformed-returns', 'family': 'malformed'},
+                {'label': 'unmergeable-updates', 'family': 'unmergeable'}]
     rule = ('one evaluation = one simulated execution of Scheduler.schedule() '
             'on a seeded acyclic hard/soft graph of <= 9 probe tasks with '
             'scripted outcomes, 1-5 workers, under a seeded policy (random '
